@@ -35,6 +35,76 @@ var (
 	collY = net.ParseIP("46.200.140.78")
 )
 
+// shardIndex: the shard the real cache files a template of this key in (read off the exported structure).
+func shardIndex(v9 bool, k ckey) int {
+	cc := flowh.NewCaches()
+	by := flowh.ElemByType()
+	t := ref.Template{ID: k.id, Fields: []ref.Field{{ID: by[ref.TU32], Len: 4, Type: ref.TU32}}}
+	flowh.Decode(v9, k.addr, (&ref.Msg{V9: v9, Hdr: hdrFor(v9, 1), Sets: []ref.Set{{Kind: ref.SetTemplates, Templates: []ref.Template{t}}}}).Encode(nil), cc)
+	if v9 {
+		for i, sh := range cc.N {
+			if len(sh.Templates) > 0 {
+				return i
+			}
+		}
+		return -1
+	}
+	for i, sh := range cc.I {
+		if len(sh.Templates) > 0 {
+			return i
+		}
+	}
+	return -1
+}
+
+// derivedKeys: exporter/id pairs that differ as (address, id) but coincide under a plausible
+// *derived* key - the kind of key a rewritten cache might build:
+//
+//	derived-text: the address in text form followed by the id in decimal without a separator
+//	  ("10.0.0.1"+"2256" = "10.0.0.12"+"256"); one pair filed in the SAME shard by the cache
+//	  under test and one pair filed in different shards (found by a search at start-up);
+//	derived-id: ids equal in their low octet (256/512) and ids that are octet-swapped images of
+//	  each other (258/513), all of one exporter.
+func derivedKeys(mode string, v9 bool) []ckey {
+	if mode == "derived-id" {
+		a := net.ParseIP("192.0.2.1")
+		return []ckey{{"A/256", a, 256}, {"A/512", a, 512}, {"A/258", a, 258}, {"A/513", a, 513}}
+	}
+	var same, diff, first, second []ckey
+	for id := 256; id < 1000 && (same == nil || diff == nil); id++ {
+		for d := 1; d <= 9 && (same == nil || diff == nil); d++ {
+			k1 := ckey{fmt.Sprintf("10.0.0.1/%d", d*1000+id), net.ParseIP("10.0.0.1"), uint16(d*1000 + id)}
+			k2 := ckey{fmt.Sprintf("10.0.0.1%d/%d", d, id), net.ParseIP(fmt.Sprintf("10.0.0.1%d", d)), uint16(id)}
+			if k1.addr.String()+fmt.Sprint(k1.id) != k2.addr.String()+fmt.Sprint(k2.id) {
+				panic("derived-text pair is not text-ambiguous")
+			}
+			if first == nil {
+				first = []ckey{k1, k2}
+			} else if second == nil {
+				second = []ckey{k1, k2}
+			}
+			if shardIndex(v9, k1) == shardIndex(v9, k2) {
+				if same == nil {
+					same = []ckey{k1, k2}
+				}
+			} else if diff == nil {
+				diff = []ckey{k1, k2}
+			}
+		}
+	}
+	// a cache that files every such pair alike (or none) still gets two pairs
+	if same == nil {
+		same = first
+	}
+	if diff == nil {
+		diff = second
+		if same[0].name == second[0].name {
+			diff = first
+		}
+	}
+	return append(append([]ckey{}, same...), diff...)
+}
+
 func cacheKeys(tier string) []ckey {
 	ks := []ckey{
 		{"A/256", net.ParseIP("192.0.2.1"), 256},
@@ -67,7 +137,7 @@ func cacheDefs(tier string) []cdef {
 	if tier == "thorough-defs" {
 		ds = append(ds, cdef{"d4[u8x4]", []ref.Field{{ID: by[ref.TU8], Len: 1, Type: ref.TU8}, {ID: by[ref.TU8], Len: 1, Type: ref.TU8}, {ID: by[ref.TU8], Len: 1, Type: ref.TU8}, {ID: by[ref.TU8], Len: 1, Type: ref.TU8}}})
 	}
-	if tier == "thorough-keys" {
+	if tier == "thorough-keys" || strings.HasPrefix(tier, "derived-") {
 		ds = []cdef{ds[0], ds[2], ds[3]}
 	}
 	return ds
@@ -200,8 +270,13 @@ func cacheBFS(tier string) mck.Space {
 	if tier == "thorough" {
 		modes = []string{"thorough-keys", "thorough-defs"}
 	}
+	modes = append(modes, "derived-text", "derived-id")
 	for _, m := range modes {
 		for _, v9 := range []bool{false, true} {
+			if strings.HasPrefix(m, "derived-") {
+				cfgs = append(cfgs, cfg{v9, derivedKeys(m, v9), cacheDefs(m)})
+				continue
+			}
 			cfgs = append(cfgs, cfg{v9, cacheKeys(m), cacheDefs(m)})
 		}
 	}
@@ -261,7 +336,7 @@ func cacheBFS(tier string) mck.Space {
 				}
 			}
 		}
-		if len(colliding) == 0 {
+		if len(colliding) == 0 && env.keys[0].name == "A/256" && len(env.keys) >= 6 {
 			panic("C04 alphabet holds no FNV-colliding exporter/id pair")
 		}
 		var evs []cevent
@@ -320,6 +395,9 @@ func cacheBFS(tier string) mck.Space {
 			}
 			bad := func(where string, k int, msg string) {
 				cls := "other"
+				if len(env.keys) == 4 {
+					cls = "derived-key-pairs"
+				}
 				if colliding[k] {
 					cls = "hash-colliding-keys"
 				}
